@@ -68,4 +68,52 @@ Proof.
       split; [eapply net_run_app; eassumption|]. split; [exact Hq2|]. split; assumption.
 Qed.
 
+(* the same with the continuation of the run and a bound on when the state occurs *)
+Theorem all_acked_cont : forall n evs fa st st' L0,
+  0 <= Dt -> 0 <= Dack ->
+  NI st -> opts_ok st -> dl_sync Da fa st ->
+  run_all safe st evs -> fair_run Dt Da fa st evs -> net_run st evs = Ok st' ->
+  L0 <= l_len (ep_written (net_get st x)) ->
+  L0 - una_off (net_get st x) <= Z.of_nat n ->
+  net_now st x + Z.of_nat n * W3 < net_now st' x ->
+  exists pre post fa1 st1,
+    evs = pre ++ post /\ net_run st pre = Ok st1 /\ net_run st1 post = Ok st' /\
+    run_all safe st1 post /\ fair_run Dt Da fa1 st1 post /\
+    NI st1 /\ opts_ok st1 /\ dl_sync Da fa1 st1 /\
+    L0 <= una_off (net_get st1 x) /\ L0 <= rcv_off (net_get st1 y) /\
+    net_now st1 x <= net_now st x + Z.of_nat n * W3.
+Proof.
+  intros n. induction n as [|n IH]; intros evs fa st st' L0 HDt HDk HN Ho Hsy HRun Hfair Hrun HL Hn Hlate.
+  - assert (Hdone : L0 <= una_off (net_get st x)) by lia.
+    exists [], evs, fa, st. split; [reflexivity|]. split; [reflexivity|]. split; [exact Hrun|].
+    split; [exact HRun|]. split; [exact Hfair|]. split; [exact HN|]. split; [exact Ho|]. split; [exact Hsy|].
+    split; [exact Hdone|].
+    destruct (run_all_here _ _ _ HRun) as (HR & _). destruct (ow_cross x st HR) as (_ & Hc & _). fold y in Hc.
+    split; lia.
+  - assert (HW : 0 <= W3) by (unfold W3; pose proof max_rto_us_pos; lia).
+    destruct (Z_le_gt_dec L0 (una_off (net_get st x))) as [Hdone | Hmore].
+    + exists [], evs, fa, st. split; [reflexivity|]. split; [reflexivity|]. split; [exact Hrun|].
+      split; [exact HRun|]. split; [exact Hfair|]. split; [exact HN|]. split; [exact Ho|]. split; [exact Hsy|].
+      split; [exact Hdone|].
+      destruct (run_all_here _ _ _ HRun) as (HR & _). destruct (ow_cross x st HR) as (_ & Hc & _). fold y in Hc.
+      split; [lia|]. rewrite Nat2Z.inj_succ. nia.
+    + assert (Hl : 0 < txl x st) by (unfold txl, una_off, net_sock in *; lia).
+      assert (Hlate1 : net_now st x + max_rto_us + 2 * Dt + Dack < net_now st' x).
+      { unfold W3 in *. rewrite Nat2Z.inj_succ in Hlate. nia. }
+      destruct (ack_round x Dt Da Dack evs fa st st' (una_off (net_get st x)) HDt HDk HN Ho Hsy HRun Hfair Hrun Hl eq_refl Hlate1)
+        as (pre & post & fa1 & st1 & -> & Hp1 & Hp2 & HR1 & Hf1 & HN1 & Ho1 & Hsy1 & HQ & Hclk).
+      unfold Qg in HQ.
+      assert (HL1 : L0 <= l_len (ep_written (net_get st1 x))).
+      { destruct (net_run_mono _ _ _ Hp1 x) as (Hw & _). apply TcpNetCompose_l_len_prefix in Hw. lia. }
+      assert (Hn1 : L0 - una_off (net_get st1 x) <= Z.of_nat n) by (rewrite Nat2Z.inj_succ in Hn; lia).
+      assert (Hlate2 : net_now st1 x + Z.of_nat n * W3 < net_now st' x).
+      { rewrite Nat2Z.inj_succ in Hlate. unfold W3 in *. nia. }
+      destruct (IH post fa1 st1 st' L0 HDt HDk HN1 Ho1 Hsy1 HR1 Hf1 Hp2 HL1 Hn1 Hlate2)
+        as (pre2 & post2 & fa2 & st2 & -> & Hq1 & Hq2 & HR2 & Hf2 & HN2 & Ho2 & Hsy2 & HU & HRc & Hclk2).
+      exists (pre ++ pre2), post2, fa2, st2. split; [rewrite app_assoc; reflexivity|].
+      split; [eapply net_run_app; eassumption|]. split; [exact Hq2|].
+      split; [exact HR2|]. split; [exact Hf2|]. split; [exact HN2|]. split; [exact Ho2|]. split; [exact Hsy2|].
+      split; [exact HU|]. split; [exact HRc|]. rewrite Nat2Z.inj_succ. unfold W3 in *. nia.
+Qed.
+
 End All.
